@@ -9,7 +9,7 @@
 //!        | RND                  helper_rnd_bundle()      (harness only: the model cannot know the random bytes)
 //!        | FROM <h>             bundle_from_cbor(buffer h)                                        -> NULL | handle (bundle)
 //!        | TOCBOR <h>           bundle_to_cbor(bundle h)                                          -> handle (library buffer)
-//!        | META <h>             bundle_get_metadata(bundle h)                                     -> handle (metadata)
+//!        | META <h>             bundle_get_metadata(bundle h)                                     -> NULL | handle (metadata)
 //!        | PAYLOAD <h>          bundle_payload(bundle h)                                          -> handle (library buffer)
 //!        | VALID <h>            bundle_is_valid(bundle h)                                         -> T | F
 //!        | NEW x<src> x<dst> <lifetime_ms> <h> <clock_ms>   bundle_new_default(src, dst, lifetime, buffer h); the clock hook
@@ -342,6 +342,10 @@ pub fn ffi_child_main() {
                     let m = bp7::ffi::bundle_get_metadata(b) as *mut CMeta;
                     let d = live() - before;
                     net += d;
+                    if m.is_null() {
+                        // an EID text with a NUL character is not a C string
+                        return format!("NULL d{}", d);
+                    }
                     objs.push(Obj::Meta(m));
                     let mm = &*m;
                     format!(
